@@ -39,8 +39,8 @@ func terminationVerdicts(env *Env, vcs []*VC, nLoops, nRange *int) []effectVerdi
 		for _, b := range f.Blocks {
 			for _, in := range b.Instrs {
 				if c, ok := in.(ssa.CallInstruction); ok {
-					if g, ok := c.Common().Value.(*ssa.Function); ok && isModuleFn(g) {
-						cs = append(cs, g)
+					if g, ok := c.Common().Value.(*ssa.Function); ok && fns[g] != nil {
+						cs = append(cs, g) // cycles among the listed functions (others are used through their contracts)
 					}
 				}
 			}
